@@ -354,9 +354,12 @@ Lemma print_dec_dd d : dd (print_dec d) = true.
 Proof.
   destruct d as [m [|s]]; unfold print_dec.
   - apply digits_dd, print_nat_digits.
-  - unfold dd. rewrite !forallb_app. fold (dd (print_nat (m / pow10 (S s)))).
-    rewrite digits_dd by apply print_nat_digits.
-    fold (dd (digs (S s) (m mod pow10 (S s)))). rewrite digits_dd by apply digs_digits. reflexivity.
+  - change (print_nat (m / pow10 (S s)) ++ [46] ++ digs (S s) (m mod pow10 (S s)))
+      with (print_nat (m / pow10 (S s)) ++ 46 :: digs (S s) (m mod pow10 (S s))).
+    unfold dd. rewrite forallb_app. cbn [forallb].
+    pose proof (digits_dd _ (print_nat_digits (m / pow10 (S s)))) as H1.
+    pose proof (digits_dd _ (digs_digits (S s) (m mod pow10 (S s)))) as H2.
+    unfold dd in H1, H2. rewrite H1, H2. reflexivity.
 Qed.
 
 Lemma print_dec_nonempty d : print_dec d <> [].
